@@ -255,7 +255,8 @@ def c05_d(ctx):
     sc = ctx.calls(init, name='set_context')
     ok = bool(sc) and all(
         [ex.term(a) for a in c.args] == [('param', 'self')] and
-        any(pol and contains(t, 'not pool.has_context') for (t, pol, _) in ctx.guards(init, c))
+        any((not pol) and match(t, pattern('pool.has_context')) is not None
+            for (t, pol, _) in ctx.guards(init, c))
         for c in sc)
     ctx.check(ok, init, 'context-less pool receives the context', 'pool.set_context(self)',
               'a pool without context does not receive the context of its first use', fn=init,
